@@ -67,6 +67,7 @@ type cellResult struct {
 	Viol     []violation
 	Unstable bool
 	Dials    int
+	Retried  int // identical ClientHellos of failed requests collapsed (the stack's own retry)
 }
 
 func (p *pki) tlsConfig(t *tlsSpec) *tls.Config {
@@ -253,6 +254,10 @@ func (p *pki) userHandshake(t *tlsSpec) func(ctx context.Context, addr string, p
 	}
 }
 
+func sameHello(a, b hello) bool {
+	return a.Quic == b.Quic && a.SNI == b.SNI && strings.Join(a.ALPN, ",") == strings.Join(b.ALPN, ",")
+}
+
 func waitFor(d time.Duration, f func() bool) bool {
 	deadline := time.Now().Add(d)
 	for {
@@ -395,15 +400,21 @@ func runCell(p *pki, o *origin, cl cell, timeout time.Duration) (res cellResult)
 				}
 			}
 		}
+		retried := 0
 		for _, h := range o.since(m) {
 			if bgStarted && h.Quic {
 				bg.Hellos = append(bg.Hellos, h)
+			} else if n := len(rec.Hellos); n > 0 && err != nil && sameHello(rec.Hellos[n-1], h) {
+				// a failed request may have been retried on a second, identical connection by the stack's own
+				// retry logic (http2 RoundTripOpt after an unusable new connection; timing dependent): projected away
+				retried++
 			} else {
 				rec.Hellos = append(rec.Hellos, h)
 			}
 		}
 		bg.Alt = c.GetTransport().VerifAltSvcState(u)
 		res.Dials += len(rec.Hellos) + len(bg.Hellos)
+		res.Retried += retried
 
 		// ---- oracle, from the property text ----
 		ok := rec.Outcome == "V1" || rec.Outcome == "V2" || rec.Outcome == "V3"
